@@ -295,3 +295,145 @@ Theorem C01_histc_example_spec :
                  (subst_s (map (fun p : nat * edge => (fst p, cbfun_of (hc_s eacache exc_stA) (snd p))) exc_rp) gA5)).
 Proof. exact (conj exc_spec_quant (conj exc_spec_restrict exc_spec_subst)). Qed.
 Print Assumptions C01_histc_example_spec.
+
+(** ** ALL histories, ZBDD kind (HISTz, Mgr/HistoryZ.v): canonicity after any history, in terms of the
+    function of the variables ([zbfun_of]) and of the family of sets of variables ([vmem]); the result of
+    every call is determined by the operator, the operands' functions and the variable order *)
+From Coq Require Import Bool List NArith PArith FMapPositive.
+From OxiVerif Require Import DD.Sem DD.Build DD.Apply DD.ConfigApply DD.FamSpec DD.ZbddOps DD.ZbddOpsProofs DD.ZbddBool
+  DD.ZbddBoolProofs DD.ZbddEvalProofs Mgr.LevelSwapZ Mgr.LevelSwapZProofs Mgr.HistoryExamples
+  Mgr.HistoryZ Mgr.HistoryZBase Mgr.HistoryZFam Mgr.HistoryZProofs Mgr.HistoryZThms Mgr.HistoryZSpec Mgr.HistoryZTie
+  Mgr.HistoryZExamples.
+
+(* the property: after ANY history two slots hold the same edge iff they denote the same function of the variables *)
+Theorem C01_histz_canonical :
+  forall (gt : ref -> ref -> bool) (C : Type) (cget : C -> N -> list ref -> list nat -> option ref)
+  (cadd : C -> N -> list ref -> list nat -> ref -> C),
+  zlossy C cget cadd ->
+  forall cempty : C,
+  (forall (k : N) (a : list ref) (m : list nat), cget cempty k a m = None) ->
+  forall cav : C -> C,
+  cav_ok C cget cav ->
+  forall (n : nat) (st : hstate_z C),
+  hreach_z gt C cget cadd cempty cav n st ->
+  forall (x y : N) (ex ey : edge),
+  hget (s_handles (hz_s C st)) x = Some ex ->
+  hget (s_handles (hz_s C st)) y = Some ey ->
+  ex = ey <-> (forall a : asg, zbfun_of (hz_s C st) (eref ex) a = zbfun_of (hz_s C st) (eref ey) a).
+Proof. exact histz_canonical. Qed.
+Print Assumptions C01_histz_canonical.
+
+(* ... iff they denote the same family of sets of variables *)
+Theorem C01_histz_canonical_fam :
+  forall (gt : ref -> ref -> bool) (C : Type) (cget : C -> N -> list ref -> list nat -> option ref)
+  (cadd : C -> N -> list ref -> list nat -> ref -> C),
+  zlossy C cget cadd ->
+  forall cempty : C,
+  (forall (k : N) (a : list ref) (m : list nat), cget cempty k a m = None) ->
+  forall cav : C -> C,
+  cav_ok C cget cav ->
+  forall (n : nat) (st : hstate_z C),
+  hreach_z gt C cget cadd cempty cav n st ->
+  forall (x y : N) (ex ey : edge),
+  hget (s_handles (hz_s C st)) x = Some ex ->
+  hget (s_handles (hz_s C st)) y = Some ey ->
+  ex = ey <-> (forall a : asg, vmem (hz_s C st) (eref ex) a <-> vmem (hz_s C st) (eref ey) a).
+Proof. exact histz_canonical_fam. Qed.
+Print Assumptions C01_histz_canonical_fam.
+
+Theorem C01_histz_inv_canonical :
+  forall (C : Type) (cget : C -> N -> list ref -> list nat -> option ref) (st : hstate_z C),
+  HInvZ C cget st ->
+  forall (x y : N) (ex ey : edge),
+  hget (s_handles (hz_s C st)) x = Some ex ->
+  hget (s_handles (hz_s C st)) y = Some ey ->
+  ex = ey <-> (forall a : asg, zbfun_of (hz_s C st) (eref ex) a = zbfun_of (hz_s C st) (eref ey) a).
+Proof. exact hinvz_canonical. Qed.
+Print Assumptions C01_histz_inv_canonical.
+
+(* after any history the destination holds the spec function of the operand FUNCTIONS *)
+Theorem C01_histz_spec :
+  forall (gt : ref -> ref -> bool) (C : Type) (cget : C -> N -> list ref -> list nat -> option ref)
+  (cadd : C -> N -> list ref -> list nat -> ref -> C),
+  zlossy C cget cadd ->
+  forall cempty : C,
+  (forall (k : N) (a : list ref) (m : list nat), cget cempty k a m = None) ->
+  forall cav : C -> C,
+  cav_ok C cget cav ->
+  forall (st : hstate_z C) (o : zhop) (d : N) (F : bfun),
+  HInvZ C cget st ->
+  hspec_z C st o d F ->
+  exists st' : hstate_z C,
+  hstep_z gt C cget cadd cempty cav st o = Some st' /\ HInvZ C cget st' /\ hframe_z C st o st' /\ zholds C st' d F.
+Proof. exact hstep_z_spec. Qed.
+Print Assumptions C01_histz_spec.
+
+(* inside one manager every slot holding that function holds the returned edge *)
+Theorem C01_histz_result_unique :
+  forall (gt : ref -> ref -> bool) (C : Type) (cget : C -> N -> list ref -> list nat -> option ref)
+  (cadd : C -> N -> list ref -> list nat -> ref -> C),
+  zlossy C cget cadd ->
+  forall cempty : C,
+  (forall (k : N) (a : list ref) (m : list nat), cget cempty k a m = None) ->
+  forall cav : C -> C,
+  cav_ok C cget cav ->
+  forall (st : hstate_z C) (o : zhop) (d : N) (F : bfun) (st' : hstate_z C),
+  HInvZ C cget st ->
+  hspec_z C st o d F ->
+  hstep_z gt C cget cadd cempty cav st o = Some st' ->
+  forall y : N, zholds C st' y F -> hget (s_handles (hz_s C st')) y = hget (s_handles (hz_s C st')) d.
+Proof. exact histz_result_unique. Qed.
+Print Assumptions C01_histz_result_unique.
+
+(* two managers, two configurations, arbitrary histories, the same variable order: same function, same node count *)
+Theorem C01_histz_result_determined :
+  forall (gt1 gt2 : ref -> ref -> bool) (C1 C2 : Type) (cget1 : C1 -> N -> list ref -> list nat -> option ref)
+  (cadd1 : C1 -> N -> list ref -> list nat -> ref -> C1) (cget2 : C2 -> N -> list ref -> list nat -> option ref)
+  (cadd2 : C2 -> N -> list ref -> list nat -> ref -> C2),
+  zlossy C1 cget1 cadd1 ->
+  zlossy C2 cget2 cadd2 ->
+  forall (ce1 : C1) (ce2 : C2),
+  (forall (k : N) (a : list ref) (m : list nat), cget1 ce1 k a m = None) ->
+  (forall (k : N) (a : list ref) (m : list nat), cget2 ce2 k a m = None) ->
+  forall (cav1 : C1 -> C1) (cav2 : C2 -> C2),
+  cav_ok C1 cget1 cav1 ->
+  cav_ok C2 cget2 cav2 ->
+  forall (st1 : hstate_z C1) (st2 : hstate_z C2) (o1 o2 : zhop) (d1 d2 : N) (F : bfun) (st1' : hstate_z C1)
+  (st2' : hstate_z C2),
+  HInvZ C1 cget1 st1 ->
+  HInvZ C2 cget2 st2 ->
+  s_l2v (hz_s C1 st1) = s_l2v (hz_s C2 st2) ->
+  s_v2l (hz_s C1 st1) = s_v2l (hz_s C2 st2) ->
+  hspec_z C1 st1 o1 d1 F ->
+  hspec_z C2 st2 o2 d2 F ->
+  hstep_z gt1 C1 cget1 cadd1 ce1 cav1 st1 o1 = Some st1' ->
+  hstep_z gt2 C2 cget2 cadd2 ce2 cav2 st2 o2 = Some st2' ->
+  exists r1 r2 : ref,
+  zslot C1 st1' d1 = Some r1 /\
+  zslot C2 st2' d2 = Some r2 /\
+  (forall a : asg, zbfun_of (hz_s C1 st1') r1 a = F a) /\
+  (forall a : asg, zbfun_of (hz_s C2 st2') r2 a = F a) /\
+  count_reach (hz_s C1 st1') (E r1) = count_reach (hz_s C2 st2') (E r2).
+Proof. exact histz_result_determined. Qed.
+Print Assumptions C01_histz_result_determined.
+
+(* non-vacuity: a clone and a restriction recomputed after gc + reordering come back to the same edges; different edges denote different functions *)
+Theorem C01_histz_example :
+  hget (s_handles (hz_s zacache exz_stA)) 5 = hget (s_handles (hz_s zacache exz_stA)) 21 /\
+  hget (s_handles (hz_s zacache exz_stA)) 9 = hget (s_handles (hz_s zacache exz_stA)) 22 /\
+  (forall e5 e6 : edge,
+  hget (s_handles (hz_s zacache exz_stA)) 5 = Some e5 ->
+  hget (s_handles (hz_s zacache exz_stA)) 6 = Some e6 ->
+  ~ (forall a : asg, zbfun_of (hz_s zacache exz_stA) (eref e5) a = zbfun_of (hz_s zacache exz_stA) (eref e6) a)).
+Proof. exact exz_canonA. Qed.
+Print Assumptions C01_histz_example.
+
+(* the hypotheses of the spec for restrict (a cube given as a FUNCTION) and for change are satisfiable *)
+Theorem C01_histz_example_spec :
+  (exists st', hstep_z zgtA zacache zac_get zac_add nil zcavA exz_stA (ZHRestrict 31 5 8) = Some st' /\
+  zholds zacache st' 31 (restrict_s ((0, true) :: (2, false) :: (3, false) :: nil) zfA5)) /\
+  (exists st', hstep_z zgtA zacache zac_get zac_add nil zcavA exz_stA (ZHSub ZChange 31 5 3) = Some st' /\
+  zholds zacache st' 31 (zsub_s ZChange 3 zfA5)).
+Proof. exact (conj exz_spec_restrict exz_spec_change). Qed.
+Print Assumptions C01_histz_example_spec.
+
